@@ -228,7 +228,7 @@ def rule_predicates(ctx) -> None:
                 got: Any = out.kind
             else:
                 want = (0 if off == 0 else min(ups), 1)
-                got = (ev.env.get("self._init_offset"), called["n"])
+                got = (ev.env.get("self._init_offset", me.__dict__.get("_init_offset")), called["n"])
             if got != want and cex is None:
                 cex = (offs, off, got, want)
     chk.exhaustive_rules.add("C14.predicates")
@@ -251,7 +251,7 @@ def rule_predicates(ctx) -> None:
                     ev2.run(A.body_of(us.node))
                 except ordereval.Unsupported as e:
                     raise AnalysisError(f"C14.predicates: _update_segments left the fragment: {e}")
-                got = ev2.env.get("segment.excluded")
+                got = ev2.env.get("segment.excluded", s.__dict__.get("excluded"))
                 want = (s.full_image_offset - init < 0) and s.full_image_offset >= 0
                 if got != want and cex is None:
                     cex = (s.full_image_offset, init, got, want)
